@@ -744,6 +744,46 @@ def given_statistics_phase(ctx, tmpdir):
                           tags=dict(clause="given_statistics", source=name))
 
 
+def big_call_phase(ctx):
+    """'any split of the data into accumulate calls gives the same transform', at sizes where an implementation might work
+    in blocks: thousands of vectors in ONE call against the same data in two calls, many single vectors, a rank-3 tensor
+    - compared with each other and with NumPy's float64 mean / variance of the data"""
+    p = post()
+    rs = np.random.RandomState(1612)
+    for N in (1025, 2500, 4097):
+        data = rs.normal(size=(N, 3)) * np.array([2.0, 0.5, 30.0]) + np.array([5.0, -3.0, 100.0])
+        probe = data[:4].copy()
+        splits = {
+            "one call": [data],
+            "two calls": [data[:1024], data[1024:]],
+            "70 single vectors, then the rest": [v for v in data[:70]] + [data[70:]],
+            "rank 3": [data[: (N // 5) * 5].reshape(5, N // 5, 3), data[(N // 5) * 5:]],
+            "float32 view of one call": [data.astype(np.float32)] if N == 1025 else None,
+        }
+        mean, var = data.mean(0), data.var(0)
+        want = (probe - mean) / np.sqrt(var)
+        for name, calls in splits.items():
+            if calls is None:
+                continue
+            case = dict(kind="big_call", N=N, split=name)
+            ctx.case(case, kind="big_call")
+            try:
+                st = p.Standardize(norm_var=True)
+                for c in calls:
+                    if c.size:
+                        st.accumulate(c)
+                got = st.apply(probe.copy())
+            except Exception as e:
+                ctx.violation(case, "a transform", "%s: %s" % (type(e).__name__, str(e)[:150]), "accumulate / apply raise",
+                              tags=dict(clause="raises", where="big_call"))
+                continue
+            tol = 1e-4 if name.startswith("float32") else 1e-8
+            if got.shape != want.shape or not np.allclose(got, want, rtol=tol, atol=tol):
+                ctx.violation(case, want[0].tolist(), got[0].tolist() if got.shape == want.shape else list(got.shape),
+                              "(x - mean) / sqrt(var) with the statistics of ALL vectors accumulated so far, however they were split into calls",
+                              tags=dict(clause="accumulate_any_split", where="big_call"))
+
+
 def run(ctx, driver):
     r = ctx.rng
     n = ctx.scale(1500, 40000)
@@ -753,6 +793,7 @@ def run(ctx, driver):
         with warnings.catch_warnings():
             warnings.simplefilter("ignore")
             given_statistics_phase(ctx, tmpdir)
+            big_call_phase(ctx)
             for case in corpus():
                 eval_case(ctx, case, tmpdir, lines, pending)
             for i in range(n):
